@@ -30,11 +30,26 @@ ASSUMPTIONS = [
 CASE_TIMEOUT = 900
 MAX_JOBS = 16
 
-VARIANTS = ["databook", "spend", "unitcost", "outcome_interaction", "zero", "none"]
+VARIANTS = ["databook", "transfer", "interaction", "spend", "unitcost", "outcome_interaction", "interaction_outcome_fullcov", "zero", "none"]
 
 
 def make_world(variant):
+    if variant == "interaction":
+        # uncertainty only on an interaction weight (2-population aggregation model)
+        from mc.props import c06
+
+        spec = c06.model("agg", 0.25, "three", 1.0, 1.0, "none", True, None)
+        spec["interactions"][0]["sigma"] = 0.2
+        return World(spec)
     spec = simspace.combined_spec(0.25)
+    if variant == "transfer":
+        spec["transfers"][0]["sigma"] = 0.03  # uncertainty only on the transfer row
+    if variant == "interaction_outcome_fullcov":
+        # both programs at full coverage: only the explicitly specified outcome of the combination matters
+        spec["progs"]["covouts"][0]["sigma"] = 0.02
+        spec["progs"]["covouts"][0]["imp"] = "P1+P2=0.9"
+        spec["progs"]["covouts"][1]["sigma"] = None
+        spec["progs"]["instr"]["coverage"] = {"P1": 4.0, "P2": 4.0}  # per year; one-off programs: x dt = 1.0 per step
     for p in spec["pars"]:
         if p["name"] == "vr":
             p["sigma"] = {"databook": 0.05, "zero": 0.0}.get(variant)
@@ -64,7 +79,10 @@ def digest(res):
 
 
 def ens_map(results, **kwargs):
-    return at.PlotData(results, outputs=["sus", "vac", "ca"], pops=["pa1", "pb1"])
+    r = results[0] if isinstance(results, list) else results
+    if "sus" in r.model.pops[0].comp_lookup:
+        return at.PlotData(results, outputs=["sus", "vac", "ca"], pops=["pa1", "pb1"])
+    return at.PlotData(results, outputs=["a", "b", "c"], pops=["pa", "pb"])
 
 
 def ens_digest(pd_):
